@@ -240,7 +240,31 @@ def schema_utest():
     return dict(fields=fields, header=header, trailer=trailer, msgs=msgs, groups=groups, code_kind=code_kind, beginstr=bytes.fromhex(beginstr))
 
 
-ALL = dict(schema_utest=schema_utest, consts=consts, itoa_table=itoa_table, mon_days=mon_days, tables_utest=tables_utest)
+def timer_consts():
+    tv = _src('include/fix8/tickval.hpp')
+    vals = {}
+    for name in ('thousand', 'million'):
+        m = re.search(r'static const ticks %s\s*=\s*([^;]+);' % name, tv)
+        if not m:
+            raise FactError('Tickval::%s not found in include/fix8/tickval.hpp' % name)
+        expr = m.group(1).strip()
+        if not re.fullmatch(r'[\w\s*]+', expr):
+            raise FactError('unexpected initialiser of Tickval::%s: %r' % (name, expr))
+        v = 1
+        for f in expr.split('*'):
+            f = f.strip()
+            if f.isdigit():
+                v *= int(f)
+            elif f in vals:
+                v *= vals[f]
+            else:
+                raise FactError('unexpected factor %r in Tickval::%s' % (f, name))
+        vals[name] = v
+    _emit('TimerConsts', '/-- `Tickval::million` (= thousand * thousand): nanoseconds per millisecond, the factor in `Timer::schedule` and in the re-arm -/\n'
+          'def tickMillion : Nat := %d\n' % vals['million'])
+
+
+ALL = dict(timer_consts=timer_consts, schema_utest=schema_utest, consts=consts, itoa_table=itoa_table, mon_days=mon_days, tables_utest=tables_utest)
 
 
 def generate(names):
